@@ -726,7 +726,9 @@ func (s *session) exec(op string) string {
 		w := method(60, 20)
 		w.short(0)
 		w.shortstr(deq(f[3]))
-		w.shortstr(deq(f[4])) // "-" = empty: the server makes the tag up
+		// "-" = empty: the server makes the tag up; a tag the server made up earlier is named by its canonical form in
+		// the script and sent as the real one (a client knows it from consume-ok)
+		w.shortstr(s.realTag(deq(f[4])))
 		w.bit(false)
 		w.bit(atob(f[5]))
 		w.bit(atob(f[6]))
